@@ -190,21 +190,15 @@ func run(c *core.Ctx) error {
 			}
 		}
 	}
-	c.Logf("replayed %d behaviours on real contexts: %d drifted, %d violations, taints seen %v", st.lines, st.drifted, c.Violations(), st.taints)
+	c.Logf("replayed %d behaviours on real contexts: %d drifted, %d violations, %d schedules with a rebinding between definition and reference", st.lines, st.drifted, c.Violations(), st.racy)
 	c.Set("behaviours_replayed", st.lines)
-	c.Set("behaviours_with_modelled_defect", st.taints)
 	c.Set("methods_exercised", st.methods)
 	c.Set("type_kinds_exercised", st.kinds)
-	c.Set("racy_schedules", st.racy)
+	c.Set("schedules_with_rebinding_between_def_and_ref", st.racy)
 	c.Set("exhaustive", true)
 	c.Add("traces_validated_against_impl", int64(st.lines))
 
 	// Non-vacuity of the exploration: every modelled mechanism was reached.
-	for _, need := range []string{"tie", "race", "poison"} {
-		if st.taints[need] == 0 {
-			c.Inconclusive("vacuous exploration: no exported behaviour reaches the modelled defect path %q", need)
-		}
-	}
 	for _, need := range []string{"fields", "value", "decode", "tval", "tdef", "raw", "reset", "reuse"} {
 		if st.methods[need] == 0 {
 			c.Inconclusive("vacuous exploration: method %q never exercised", need)
@@ -216,7 +210,7 @@ func run(c *core.Ctx) error {
 		}
 	}
 	if st.racy == 0 {
-		c.Inconclusive("vacuous exploration: no schedule in which a decoder reads a rebound typedef")
+		c.Inconclusive("vacuous exploration: no schedule in which a name is rebound by another call between a decoder's definition and its reference")
 	}
 
 	// Negative control of the replay comparison: a corrupted prediction must
